@@ -1404,6 +1404,9 @@ void generate(Program &prog, dsim::Config &cfg, dsim::Rng &pr, dsim::Rng &cr, in
   cfg.eintr_permille = cr.chance(1, 3) ? 150 : 0;
   cfg.spin_bound = 2 * CPP_UTILITY_SPINLOCK_RETRY_NUM + 8;
   cfg.max_steps = 200000;
+  cfg.tso = profile != kHb && cr.chance(1, 5);  // x86-TSO store buffers inside API calls; never for C08's happens-before runs
+  static const int kDrain[] = {1, 5, 25};
+  cfg.tso_drain_percent = kDrain[cr.below(3)];
 }
 
 std::string render(const Program &p)
